@@ -23,7 +23,7 @@ BN = {0: 'one read_batch call for the chunk', -3: 'fork: one read_batch call for
 
 
 def shape(t=1, s=1, nlv=(4,), sym=None, enc=0, nd=3, ibw=2, dictmode=0, codec=0, dl=0, rl=0, il=0, crc=0, stats=0, thrift=0, openm=0, batch=0, extra=0,
-          nbalen=1, neg=0, v2raw=0, timeout=600, tag='', fork_max=8, exclude=None, expect_paths_min=1, max_paths=60000, damage=0, damage0=0, batchrd=0):
+          nbalen=1, neg=0, v2raw=0, timeout=600, tag='', fork_max=8, exclude=None, expect_paths_min=1, max_paths=60000, damage=0, damage0=0, batchrd=0, damage_prefix=0):
     """nlv: levels per data page (tuple, 1..3 pages); enc: one encoding for all data pages or a tuple with one per page"""
     md, mr = SLEV[s]
     nlv = tuple(nlv); npages = len(nlv)
@@ -52,12 +52,12 @@ def shape(t=1, s=1, nlv=(4,), sym=None, enc=0, nd=3, ibw=2, dictmode=0, codec=0,
     if extra: opts.append('2cols')
     if v2raw: opts.append('is_compressed=false')
     if opts: parts.append('+'.join(opts))
-    nm = ('reject/%s/' % NEGN[neg] if neg else 'damaged/' if damage else 'batch-reader/' if batchrd else 'read/') + '/'.join(parts) + tag + ('/pos%d+%d' % (damage0, damage) if damage else '')
+    nm = ('reject/%s/' % NEGN[neg] if neg else 'damaged/' if damage else 'batch-reader/' if batchrd else 'read/') + '/'.join(parts) + tag + ('/level-prefix' if damage_prefix else '/pos%d+%d' % (damage0, damage) if damage else '')
     pn = list(nlv) + [nlv[-1]] * (3 - npages); pe = list(encs) + [encs[-1]] * (3 - npages)
     d = ['-DVQ_TYPE=%d' % t, '-DVQ_SCHEMA=%d' % s, '-DVQ_NPAGES=%d' % npages, '-DVQ_NLV0=%d' % pn[0], '-DVQ_NLV1=%d' % pn[1], '-DVQ_NLV2=%d' % pn[2], '-DVQ_SYMMASK=%du' % sym,
          '-DVQ_ENC0=%d' % pe[0], '-DVQ_ENC1=%d' % pe[1], '-DVQ_ENC2=%d' % pe[2], '-DVQ_ND=%d' % nd, '-DVQ_IBW=%d' % ibw,
          '-DVQ_DICTMODE=%d' % dictmode, '-DVQ_CODEC=%d' % codec, '-DVQ_DEFLAY=%d' % dl, '-DVQ_REPLAY=%d' % rl, '-DVQ_IDXLAY=%d' % il, '-DVQ_CRC=%d' % crc, '-DVQ_STATS=%d' % stats,
-         '-DVQ_THRIFT=%d' % thrift, '-DVQ_OPEN=%d' % openm, '-DVQ_BATCH=%d' % batch, '-DVQ_EXTRA=%d' % extra, '-DVQ_NBALEN=%d' % nbalen, '-DVQ_NEG=%d' % neg, '-DVQ_V2RAW=%d' % v2raw, '-DVQ_DAMAGE=%d' % damage, '-DVQ_DAMAGE0=%d' % damage0, '-DVQ_BATCHRD=%d' % batchrd] + REFDEFS
+         '-DVQ_THRIFT=%d' % thrift, '-DVQ_OPEN=%d' % openm, '-DVQ_BATCH=%d' % batch, '-DVQ_EXTRA=%d' % extra, '-DVQ_NBALEN=%d' % nbalen, '-DVQ_NEG=%d' % neg, '-DVQ_V2RAW=%d' % v2raw, '-DVQ_DAMAGE=%d' % damage, '-DVQ_DAMAGE0=%d' % damage0, '-DVQ_BATCHRD=%d' % batchrd, '-DVQ_DAMAGE_PREFIX=%d' % damage_prefix] + REFDEFS
     b = ('leaf %s in schema %s (max def %d, max rep %d)%s; data pages of %s levels, %d of the %d levels symbolic (definition and repetition levels, mutually consistent); '
          'values: every bit symbolic%s; encoding per data page %s%s; codec %s; run layouts %s; %s%s%s; open via %s%s; %s'
          % (TN[t], SN[s], md, mr, ' + leading REQUIRED INT32 column' if extra else '', '+'.join(str(n) for n in nlv), nsym if md + mr else 0, ntot,
